@@ -339,3 +339,52 @@ class Result:
             self.prop, self.tier, "VIOLATIONS=%d" % len(seen) if seen else "ok", self.cov["states"],
             self.cov["evaluations"], self.cov["distinct_nontrivial"], wall))
         return 1 if seen else 0
+
+
+# ----------------------------------------------------------------------------- trace validation
+def parse_canon(s, code2name):
+    """Canonical tree string of the harness -> nested list (the specification's tree value)."""
+    pos = 0
+
+    def node():
+        nonlocal pos
+        if s[pos] == "-":
+            pos += 1
+            return [0]
+        if s[pos] == "!":
+            pos += 1
+            return [1]
+        if s[pos] == "t":
+            m = re.match(r"t(-?\d+)@(\d+|\?)", s[pos:])
+            pos += m.end()
+            return [2, code2name.get(int(m.group(1)), -99), int(m.group(2)) if m.group(2) != "?" else -99]
+        m = re.match(r"a(\d+)/(-?\d+)\(", s[pos:])
+        if not m:
+            raise ValueError("bad canonical tree at %d: %s" % (pos, s))
+        pos += m.end()
+        kids = []
+        while s[pos] != ")":
+            if s[pos] == " ":
+                pos += 1
+                continue
+            kids.append(node())
+        pos += 1
+        return [3, int(m.group(1)), int(m.group(2)), kids]
+    t = node()
+    return t
+
+
+def validate_trace(scratch, module, lines, tag, timeout=1500, heap="8g"):
+    """Write ndjson, run the trace specification with TLC, return (ok, rejected list, tlc result)."""
+    path = scratch.path("%s.ndjson" % tag)
+    with open(path, "w") as f:
+        for ln in lines:
+            f.write(json.dumps(ln) + "\n")
+    cfg = "SPECIFICATION Spec\nPOSTCONDITION TraceAccepted\nCHECK_DEADLOCK FALSE\n"
+    t = run_tlc(scratch, module, cfg, tag, workers=1, timeout=timeout, env={"TRACE": path}, heap=heap)
+    text = open(t["out"], errors="replace").read()
+    rej = [(int(m.group(1)), m.group(2), [x.strip().strip('"') for x in m.group(3).split('",')])
+           for m in re.finditer(r'<<\s*"REJ",\s*(\d+),\s*"([^"]*)",\s*\{(.*?)\}\s*>>', text, re.S)]
+    done = '"TRACE-DONE"' in text
+    ok = t["status"] == "ok" and done
+    return ok, rej, t
